@@ -274,7 +274,7 @@ func c10EvalBlockBuilt(w *mc.W, cas c10Block, built *c10Built) {
 	c := w.Ctx()
 	w.Eval()
 	txs := built.txs
-	blk := wire.NewMsgBlock(wire.NewBlockHeader(1, &chainhash.Hash{}, &chainhash.Hash{}, 0, 0))
+	blk := wire.NewMsgBlock(fixedHeader(1, &chainhash.Hash{}, &chainhash.Hash{}, 0, 0))
 	for _, k := range cas.Order {
 		blk.AddTransaction(txs[k])
 	}
